@@ -9,6 +9,7 @@ import Driver.Hand
 import Driver.Bcodec
 import Driver.Meta
 import Driver.Mi
+import Driver.Tr
 open Driver
 
 def dispatch (line : String) : Verdict :=
@@ -19,6 +20,7 @@ def dispatch (line : String) : Verdict :=
   | "C04" :: args => c04 args r
   | "C05" :: args => c05 args r
   | "C17" :: args => c17 args r
+  | "C18" :: args => c18 args r
   | "C06" :: "hand" :: args => handVerdict "C06" ("hand" :: args) r
   | "C06" :: args => c06 args r
   | "C07" :: args => c07 args r
